@@ -73,7 +73,7 @@ class Sym(object):
         self.c = c
 
     def __repr__(self):
-        return "%d*LEN%s" % (self.k, "%+d" % self.c if self.c else "")
+        return "%d*LEN%s" % (self.k, ("%+d" % self.c if isinstance(self.c, int) else "+(%r)" % (self.c,)) if self.c else "")
 
 
 class UBool(object):
@@ -1212,7 +1212,7 @@ class Interp(object):
         item = ref
         if it.enum is not None:
             item = Tup([it.enum, ref])
-            it.enum += 1
+            it.enum = add(it.enum, 1)
         return Adt("core::option::Option", 1, "Some", [item])
 
     # ---- driver
